@@ -494,13 +494,13 @@ func vRacePair(disp *cmdDispatcher, c1, c2 *clientState, a, b int, am, bm bool) 
 				if inMulti && vSessionCommands[i][0] != "MULTI" {
 					// queued in a transaction and run by EXEC
 					vCmd(c, "MULTI")
-					vCmd(c, vSessionCommands[i]...)
+					vSessionRun(c, i)
 					if c.cmdQueue != nil {
 						vCmd(c, "EXEC")
 					}
 					continue
 				}
-				vCmd(c, vSessionCommands[i]...)
+				vSessionRun(c, i)
 				if vSessionCommands[i][0] == "MULTI" {
 					vCmd(c, "DISCARD")
 				}
@@ -526,12 +526,12 @@ func vDeadlockPair(disp *cmdDispatcher, c1, c2 *clientState, a, b int, am, bm bo
 		for k := 0; k < 1500; k++ {
 			if inMulti && vSessionCommands[i][0] != "MULTI" {
 				vCmd(c, "MULTI")
-				vCmd(c, vSessionCommands[i]...)
+				vSessionRun(c, i)
 				if c.cmdQueue != nil {
 					vCmd(c, "EXEC")
 				}
 			} else {
-				vCmd(c, vSessionCommands[i]...)
+				vSessionRun(c, i)
 				if vSessionCommands[i][0] == "MULTI" {
 					vCmd(c, "DISCARD")
 				}
